@@ -188,6 +188,35 @@ class C14(PropBase):
                 self.fail(rep, f"reader display: separator width {len(lines[1])} != header width {len(header)}", {"ops": ops})
                 return
             rep.nontriv(("reader-display", spec))
+        # every refresh the reader prints is: header, separator, exactly one line of the header's width per aircraft then in the
+        # table, separator - also when the table is empty at that refresh (retention periods 0 and negative empty it at every sweep)
+        for da in (600, 1, 0, -5):
+            for spec in ("aAews", "e", ""):
+                fl = [rng.choice([F.df11(5, 0x480200 + i % 3, 0), F.df4(0, 0, 0, F.ac13_q1(500 + i), 0x480200 + i % 3)]) for i in range(26)]
+                ops = ["reset", gen.cfg_op(show=1, update=-1, groups=spec, order="", delete_after=da)] + gen.seg(fl) + ["dump"]
+                impl, so, model = run.execute(ops, model=False)
+                rep.evaluations += len(fl); rep.traces += 1
+                m = _re.search(r"@@SEG \d+ BEGIN\n(.*?)\n@@SEG \d+ END", so, _re.S)
+                if not m:
+                    raise core.Broken("reader display: segment markers missing in the harness output", so[-300:])
+                screens = [x for x in m.group(1).split("\x1b[2J\x1b[H\x1b[3J") if _re.match(r"\s*ICAO +RG ", x)]
+                for si, sc in enumerate(screens):
+                    ls = sc.lstrip("\n").split("\n")
+                    while ls and ls[-1] == "":
+                        ls.pop()
+                    header, sep = ls[0], ls[1]
+                    body = ls[2:]
+                    closing = [i for i, l in enumerate(body) if l == sep]
+                    if not closing:
+                        self.fail(rep, f"refresh {si} of the reader (delete_after {da}, -i {spec!r}) has no closing separator", {"ops": ops, "screen": sc})
+                        return
+                    rows_ = body[:closing[0]]
+                    bad = [l for l in rows_ if not _re.match(r"^[0-9A-F]{6} ", l) or len(l) != len(header)]
+                    if bad:
+                        self.fail(rep, f"refresh {si} of the reader (delete_after {da}, -i {spec!r}) prints a line between the separators that is not an "
+                                       f"aircraft row of the header's width: {bad[0]!r} ({len(rows_)} line(s) in all)", {"ops": ops, "screen": sc})
+                        return
+                rep.nontriv(("reader-refreshes", da, spec))
         rep.exhaustive.append("all 32 combinations of the -i groups")
         rep.sample({"header": header, "row": rows_txt[0] if rows_txt else ""})
 
